@@ -87,7 +87,10 @@ def monkeypatch_template_render(template_cls: Type[Template]) -> None:
         # with context.render_context.push_state(self):
         #  ---------------- OUR CHANGES START ----------------
         # We parametrized `isolated_context`, which was `True` in the original method.
-        if not hasattr(self, "_djc_is_component_nested"):
+        if getattr(context, "_djc_component_template", None) is self:
+            # This very render is a component rendering its own template (set in `Component._gen_component_renderer`)
+            isolated_context = False
+        elif not hasattr(self, "_djc_is_component_nested"):
             isolated_context = True
         else:
             # MUST be `True` for templates that are NOT import with `{% extends %}` tag,
